@@ -14,6 +14,8 @@ import (
 	"go/token"
 	"go/types"
 	"strings"
+
+	"golang.org/x/tools/go/packages"
 )
 
 func checkSetBeforeToggle(r *Run, cg *CallGraph) {
@@ -124,4 +126,117 @@ func checkSetBeforeToggle(r *Run, cg *CallGraph) {
 	}
 	r.Ob("C02-R4-parity-fields", "pgsql", token.NoPos, nFields >= 1, "%d boolean fields are both set absolutely and toggled (1 confirmed by reading: TraversalStep.PathReversed)", nFields)
 	r.Floor(rule, 1)
+}
+
+// checkReversalSeesEarlierParts (C02-R5): the pattern reversal is sound only for a pattern whose source is not bound yet,
+// because the reversed expansion re-reads its far end by id.  Bindings come from earlier clauses AND from earlier
+// pattern parts of the same MATCH (MATCH (s {…}), p = (s)-[*0..]->…).  In every loop over a MATCH's pattern parts that
+// may reverse a part, the set of declared symbols handed to the reversal test must be extended with each part's
+// symbols inside the loop.
+func checkReversalSeesEarlierParts(r *Run, op *packages.Package, cg *CallGraph) {
+	const rule = "C02-R5-reversal-bindings"
+	info := op.TypesInfo
+	var reverser *types.Func
+	for fn := range cg.Decl {
+		if cg.PkgOf[fn] == op && fn.Name() == "reversePatternElements" {
+			reverser = fn
+		}
+	}
+	if reverser == nil {
+		r.Undecide("C02-R5: optimize.reversePatternElements not found")
+		return
+	}
+	n := 0
+	for _, f := range op.Syntax {
+		for _, d := range f.Decls {
+			fd, ok := d.(*ast.FuncDecl)
+			if !ok || fd.Body == nil {
+				continue
+			}
+			ast.Inspect(fd.Body, func(x ast.Node) bool {
+				rs, ok := x.(*ast.RangeStmt)
+				if !ok {
+					return true
+				}
+				sel, ok := ast.Unparen(rs.X).(*ast.SelectorExpr)
+				if !ok || sel.Sel.Name != "Pattern" {
+					return true
+				}
+				part, ok := rs.Value.(*ast.Ident)
+				if !ok {
+					return true
+				}
+				partObj := info.Defs[part]
+				// a call in the body that takes the part and a map of declared symbols and can reach the reverser
+				var declared types.Object
+				ast.Inspect(rs.Body, func(m ast.Node) bool {
+					call, ok := m.(*ast.CallExpr)
+					if !ok {
+						return true
+					}
+					callee := calleeOf(info, call)
+					if callee == nil || cg.Decl[callee] == nil {
+						return true
+					}
+					if _, reaches := cg.Reach([]*types.Func{callee}, nil)[reverser]; !reaches {
+						return true
+					}
+					takesPart := false
+					for _, a := range call.Args {
+						if id, ok := ast.Unparen(a).(*ast.Ident); ok {
+							if info.Uses[id] == partObj {
+								takesPart = true
+							} else if _, isMap := info.TypeOf(id).Underlying().(*types.Map); isMap && declared == nil {
+								declared = info.Uses[id]
+							}
+						}
+					}
+					if !takesPart {
+						declared = nil
+					}
+					return true
+				})
+				if declared == nil {
+					return true
+				}
+				n++
+				extends := false
+				ast.Inspect(rs.Body, func(m ast.Node) bool {
+					call, ok := m.(*ast.CallExpr)
+					if !ok {
+						return true
+					}
+					callee := calleeOf(info, call)
+					if callee == nil || !strings.HasPrefix(callee.Name(), "declare") {
+						return true
+					}
+					hasMap, hasPart := false, false
+					for _, a := range call.Args {
+						if id, ok := ast.Unparen(a).(*ast.Ident); ok {
+							if info.Uses[id] == declared {
+								hasMap = true
+							}
+							if info.Uses[id] == partObj {
+								hasPart = true
+							}
+						}
+					}
+					if hasMap && hasPart {
+						extends = true
+					}
+					return true
+				})
+				construct := funcDeclName(fd) + ":range " + exprString(r.Fset, rs.X)
+				if extends {
+					r.Pass(rule, construct, rs.Pos(), "each pattern part declares its symbols for the parts that follow it")
+				} else {
+					r.Fail(rule, construct, rs.Pos(), "the loop may reverse a pattern part but %s only learns the symbols of earlier clauses: in MATCH (s {name:'a'}), p = (s)-[*0..]->()-[]->(d {name:'x'}) the second part is reversed although s is bound by the first, and the reversed statement returns paths from every node", declared.Name())
+				}
+				return true
+			})
+		}
+	}
+	if n == 0 {
+		r.Undecide("C02-R5: no loop over a MATCH's pattern parts that can reverse a part was found in package optimize")
+	}
 }
